@@ -607,8 +607,10 @@ def _judge_exec(sc, st, cap, violation, probes):
         # the delays themselves: every command leaves at the same offset from
         # the start of the run as in the fresh run, give or take the tick
         # phase (no stalls are injected in these histories)
-        if not run.get('held_up') and len(run['offsets']) == \
-                len(ref['offsets']):
+        # (not for scripts that wait for a time of day: how long that takes
+        # depends on the wall clock at which the run happens to start)
+        if not run.get('held_up') and 'time at' not in text and \
+                len(run['offsets']) == len(ref['offsets']):
             for i, (a, b) in enumerate(zip(run['offsets'], ref['offsets'])):
                 if a < b - (tick + 0.02) or a > b + 2 * tick + 0.05:
                     violation('exec/timing-differs',
